@@ -320,9 +320,10 @@ def cli_declared_options(pkg: Package, res: Resolver, f: FuncInfo):
         elif isinstance(fn, ast.Name) and fn.id == "_add_common_arg":
             if common is None:
                 raise AnalysisError("_COMMON_ARGS table not found")
-            if len(call.args) < 2 or not isinstance(call.args[1], ast.Constant):
+            farg = call.args[1] if len(call.args) >= 2 else next((k.value for k in call.keywords if k.arg == "flag"), None)
+            if not isinstance(farg, ast.Constant):
                 raise AnalysisError(f"{f.key}: _add_common_arg with non-literal flag")
-            flag = call.args[1].value
+            flag = farg.value
             if flag not in common:
                 raise AnalysisError(f"{f.key}: common flag {flag} not in _COMMON_ARGS")
             out.append((_flag_dest([flag], common[flag]), common[flag], call.lineno, [flag]))
